@@ -17,7 +17,16 @@ pub(crate) type Default = Heap;
 pub(crate) type Default = Empty;
 
 use core::alloc::Layout;
+use core::mem::MaybeUninit;
 use core::ptr::NonNull;
+
+/// Maximum element alignment, supported by on-stack storages.
+pub(crate) const MAX_STACK_ALIGN: usize = 64;
+
+/// Bytes storage for [`Stack`] and [`StackN`], aligned for any element
+/// with alignment up to [`MAX_STACK_ALIGN`].
+#[repr(align(64))]
+pub(crate) struct AlignedBytes<const SIZE: usize>(pub(crate) MaybeUninit<[u8; SIZE]>);
 
 /// This is [`Mem`] builder.
 ///
